@@ -397,6 +397,36 @@ def table_names(path):
     return re.findall(r'\("(\w+)"', m.group(1))
 
 
+def filter_harness(src_path, defined, dst_path):
+    """A harness that names a production / dispatcher the regenerated grammar no longer has cannot be
+    compiled.  Instead of losing every check to one refactored production, such harnesses are left out
+    (and reported: the property that needs them becomes inconclusive).  Top-level macro instantiations
+    are dropped individually, otherwise the whole file.
+    returns (path to include, {harness name: [missing identifiers]})"""
+    txt = open(src_path).read()
+    need = lambda t: sorted(set(x for x in re.findall(r'(?<![$\w])(?:p_[A-Za-z0-9_]+|nt_[A-Za-z0-9_]+|NT_[A-Za-z0-9_]+)\b', re.sub(r'//[^\n]*', '', t)) if x not in defined))
+    if not need(txt):
+        return src_path, {}
+    skipped = {}
+    items = list(re.finditer(r'(?ms)^([a-z_0-9]+)!\((\w+),.*?\);\n', txt))
+    out = txt
+    for m in items:
+        miss = need(m.group(0))
+        if miss:
+            out = out.replace(m.group(0), '// [not attached: %s]\n' % ', '.join(miss))
+            skipped[m.group(2)] = miss
+            out = re.sub(r'(?m)^\s*\("%s", %s\),\n' % (m.group(2), m.group(2)), '', out)
+            if m.group(1) in ('binop8', 'binop16', 'frame_only', 'frame_only_un'):
+                pass
+    if need(out):
+        # something hand-written refers to a missing name: leave the whole file out
+        names = table_names(src_path)
+        return None, {n: need(txt) for n in names} or {os.path.basename(src_path): need(txt)}
+    with open(dst_path, 'w') as f:
+        f.write(out)
+    return dst_path, skipped
+
+
 def append_once(path, line):
     txt = open(path).read()
     if line not in txt:
@@ -406,7 +436,7 @@ def append_once(path, line):
 
 def attach(tree, kf_active):
     """modify the scratch tree; returns info dict (grammars, leaves, harness index)."""
-    info = {'grammars': {}, 'harness_files': {}, 'leaves': {}}
+    info = {'grammars': {}, 'harness_files': {}, 'leaves': {}, 'skipped': {}}
     lib = os.path.join(tree, 'src/lib')
     # runtime + containers
     for name in ('rt', 'map'):
@@ -492,11 +522,22 @@ def attach(tree, kf_active):
                 gf.write(totality_module(g, leaves))
             by_point.setdefault(point, []).append(('interp_zz_totalgen', genf))
         libs = [st for st, _ in by_point.get(point, []) if re.match(r'^%s_a[a-z]_' % point, st)]
+        defined = set()
+        if point in PARSER_POINTS:
+            defined = set(re.findall(r'\b(?:p_[A-Za-z0-9_]+|nt_[A-Za-z0-9_]+|NT_[A-Za-z0-9_]+)\b', body[0]))
         for stem, f in by_point.get(point, []):
+            inc = f
+            if point in PARSER_POINTS and not os.path.basename(f).startswith('verif_'):
+                # names defined by library modules of this point (macros etc.) are not grammar names
+                inc, skipped = filter_harness(f, defined, os.path.join(os.path.dirname(target), 'verif_filtered_%s.rs' % stem))
+                if skipped:
+                    info['skipped'].update(skipped)
+                if inc is None:
+                    continue
             extra = ''.join('    use super::%s::*;\n' % l for l in libs if l < stem)
-            body.append('#[macro_use]\npub mod %s {\n    #![allow(dead_code, unused_imports, unused_variables, unused_mut, non_upper_case_globals, unused_macros)]\n    use super::*;\n%s    include!(%s);\n}\n' % (stem, extra, json.dumps(f)))
+            body.append('#[macro_use]\npub mod %s {\n    #![allow(dead_code, unused_imports, unused_variables, unused_mut, non_upper_case_globals, unused_macros)]\n    use super::*;\n%s    include!(%s);\n}\n' % (stem, extra, json.dumps(inc)))
             table_entries.append((crate, '%s::%s::TABLE' % (modpath, stem)))
-            info['harness_files'][stem] = table_names(f)
+            info['harness_files'][stem] = table_names(inc)
         modfile = os.path.join(os.path.dirname(target), modname + '.rs')
         with open(modfile, 'w') as out:
             out.write('\n'.join(body))
